@@ -121,6 +121,8 @@ InitState(engine) ==
     guide     |-> << >>,
     phase     |-> 0,            \* the phase being evaluated (ctl options are honoured up to a phase)
     reqAccess |-> "cfg",        \* ctl:requestBodyAccess / responseBodyAccess overrides: "cfg" | "On" | "Off"
+    reqLimit  |-> 0,            \* ctl:requestBodyLimit / responseBodyLimit overrides (0 = the configured limit)
+    respLimit |-> 0,
     respAccess |-> "cfg",
     cacheOn   |-> FALSE,        \* EngineCache layer: share transformation results between rules of a phase
     cache     |-> {},           \* set of [k, v]: k = CacheKey(...), v = transformed value
@@ -278,6 +280,7 @@ OpMatches(st, op, v) == OpHolds(st, op, v) # op.neg
 (*   skip n | skipAfter s | allow s(scope) | deny/drop/redirect/pass/block *)
 (*   status is rule data (r.status), severity r.sev, capture r.capture     *)
 (***************************************************************************)
+Itoa2(n) == CASE n = 1 -> "1" [] n = 2 -> "2" [] n = 3 -> "3" [] n = 4 -> "4" [] OTHER -> "9"
 A(name)          == [a |-> name, k |-> << >>, op |-> "", v |-> << >>, n |-> 0, s |-> ""]
 ASetvar(k, op, v) == [A("setvar") EXCEPT !.k = k, !.op = op, !.v = v]
 ASkip(n)         == [A("skip") EXCEPT !.n = n]
@@ -294,6 +297,8 @@ ACtlRmTgtMsg(m, col, sel) == [A("ctl") EXCEPT !.s = "ruleRemoveTargetByMsg", !.o
 ACtlEngine(m)    == [A("ctl") EXCEPT !.s = "ruleEngine", !.op = m]
 ACtlReqAccess(v) == [A("ctl") EXCEPT !.s = "requestBodyAccess", !.op = v]
 ACtlRespAccess(v) == [A("ctl") EXCEPT !.s = "responseBodyAccess", !.op = v]
+ACtlReqLimit(n) == [A("ctl") EXCEPT !.s = "requestBodyLimit", !.op = Itoa2(n), !.n = n]
+ACtlRespLimit(n) == [A("ctl") EXCEPT !.s = "responseBodyLimit", !.op = Itoa2(n), !.n = n]
 
 NonDisruptive(act) == act.a \in {"setvar", "ctl"}
 FlowOrDisruptive(act) == act.a \in {"skip", "skipAfter", "allow", "deny", "drop", "redirect", "pass", "block"}
@@ -324,6 +329,8 @@ DoCtl(st, act) ==
     [] act.s = "ruleRemoveTargetByMsg" -> [st EXCEPT !.rmTgts = Append(@, [by |-> "msg", id |-> 0, hi |-> 0, tag |-> act.op, col |-> act.k[1].col, sel |-> act.k[1].sel])]
     [] act.s = "ruleEngine"           -> [st EXCEPT !.engine = act.op]
     \* body access can be switched until the corresponding headers phase is over
+    [] act.s = "requestBodyLimit"     -> [st EXCEPT !.reqLimit = act.n]
+    [] act.s = "responseBodyLimit"    -> [st EXCEPT !.respLimit = act.n]
     [] act.s = "requestBodyAccess"    -> IF st.phase <= 1 THEN [st EXCEPT !.reqAccess = act.op] ELSE st
     [] act.s = "responseBodyAccess"   -> IF st.phase <= 3 THEN [st EXCEPT !.respAccess = act.op] ELSE st
     [] OTHER -> st
